@@ -728,4 +728,27 @@ theorem entry_points_present :
     (readSites.filter (fun r => r.callee == "loadFromDataWithPathInternal")).length = 2 ∧
     (readSites.filter (fun r => r.callee == "ResolveRefsIn")).length = 2 := by decide
 
+/-! ### loader and default reader together -/
+
+/-- Whatever the load (either switch setting, any fuel): every medium the default reader touches is faithful to a
+location of the load's read log — so the theorems about the log are theorems about the files and URLs touched. -/
+theorem media_are_logged_locations (inp : Input) (fuel : Nat) :
+    ∀ m ∈ mediaOf (load inp fuel).1.log, ∃ u ∈ (load inp fuel).1.log, m = defaultRead u.toRLoc ∧ Faithful m u.toRLoc := by
+  intro m hm
+  obtain ⟨u, hu, rfl⟩ := List.mem_map.mp hm
+  exact ⟨u, hu, rfl, default_reader_reads_the_location _⟩
+
+/-- First sentence down to the medium: with the switch off, with the library's default reader, the only file or URL
+touched is the root document's own (and it is touched faithfully: a root that names a host is never a local file). -/
+theorem switch_off_default_reader_touches_root_only (inp : Input) (fuel : Nat) (hoff : inp.allowed = false) :
+    ∀ m ∈ mediaOf (load inp fuel).1.log, ∃ r, inp.root = some r ∧ m = defaultRead r.toRLoc ∧ Faithful m r.toRLoc := by
+  intro m hm
+  obtain ⟨u, hu, hm', hf⟩ := media_are_logged_locations inp fuel m hm
+  exact ⟨u, (switch_off_reads_root_only inp fuel hoff u hu).symm, hm', hf⟩
+
+/-- `LoadFromData` with the switch off: the default reader touches nothing. -/
+theorem switch_off_data_touches_nothing (inp : Input) (fuel : Nat) (hoff : inp.allowed = false)
+    (hd : inp.entry = Entry.data) : mediaOf (load inp fuel).1.log = [] := by
+  simp [mediaOf, switch_off_data_reads_nothing inp fuel hoff hd]
+
 end KinModel.Reads
